@@ -27,7 +27,8 @@ section
 variable {exts : Array Ext} {nbF : Nat}
 
 /-- The emission loop of frame `f` over indices `[i, hi)` on which the repeat indicator does not fire. -/
-theorem wFrameLoop_plain (hv : AllValid exts nbF) (f : Nat) (det : Det) (i hi : Nat) (s : GSt) (hle : hi ≤ exts.size) :
+theorem wFrameLoop_plain (hv : AllIF exts nbF) (f : Nat) (det : Det) (i hi : Nat) (s : GSt) (hle : hi ≤ exts.size) :
+    (∀ x ∈ seg exts i hi f, LenOk x) →
     (∀ i', i ≤ i' → i' < hi → ¬ (0 < det.repeatCount ∧ s.repIdx[f]? = some i')) →
     wFrameLoop exts nbF f det i hi s =
       { ops := serOps exts.size (seg exts i hi f) s.currFrame s.written,
@@ -35,34 +36,75 @@ theorem wFrameLoop_plain (hv : AllValid exts nbF) (f : Nat) (det : Det) (i hi : 
                             currFrame := lastFrame s.currFrame (seg exts i hi f) } } := by
   fun_induction wFrameLoop exts nbF f det i hi s with
   | case1 i s hlt ih3 ih2 ih1 =>
-    intro hno
+    intro hL hno
     have hin : i < exts.size := by omega
     have hget : exts[i]? = some exts[i] := Array.getElem?_eq_getElem hin
     have hrd : rdE exts i = .ok exts[i] := by simp only [rdE]; rw [hget]
-    have hve := hv i _ hget
-    rw [hrd, W.lift_ok_bind, seg_step exts i hi f _ hlt hget]
+    have hif := hv i _ hget
+    have hsegstep := seg_step exts i hi f _ hlt hget
+    rw [hrd, W.lift_ok_bind, hsegstep]
     by_cases hfe : exts[i].frame = (f : Int)
-    · have hfn : exts[i].frame.toNat = f := by omega
+    · have hfn : exts[i].frame.toNat = f := by have := hif.fr_lo; omega
+      have hok : LenOk exts[i] := hL _ (by rw [hsegstep]; simp [hfn])
       simp only [hfe, if_true]
-      rw [W.bind_of_ok _ (wSep_ok f s.currFrame), W.bind_of_ok _ (wExt_ok hve _)]
+      rw [W.bind_of_ok _ (wSep_ok f s.currFrame), W.bind_of_ok _ (wExt_res_ok hif hok _)]
       have hnr := hno i (Nat.le_refl _) hlt
       simp only [hnr, if_false]
-      rw [ih2 exts[i] (fun i' h1 h2 => hno i' (by omega) h2)]
+      rw [ih2 exts[i] (fun x hx => hL x (by rw [hsegstep]; exact List.mem_append_right _ hx)) (fun i' h1 h2 => hno i' (by omega) h2)]
       have hff : ((f : Int)).toNat = f := by omega
       simp only [hff, if_true, List.cons_append, List.nil_append, serOps, lastFrame, List.length_cons, List.append_assoc, hfn]
       have e1 : s.written + 1 + (seg exts (i + 1) hi f).length = s.written + ((seg exts (i + 1) hi f).length + 1) := by omega
       rw [e1]
-    · have hfn : ¬ exts[i].frame.toNat = f := by have := hve.fr_lo; omega
+    · have hfn : ¬ exts[i].frame.toNat = f := by have := hif.fr_lo; omega
       simp only [hfe, hfn, if_false, List.nil_append]
-      exact ih1 (fun i' h1 h2 => hno i' (by omega) h2)
+      exact ih1 (fun x hx => hL x (by rw [hsegstep]; simp [hfn]; exact hx)) (fun i' h1 h2 => hno i' (by omega) h2)
   | case2 i s hge =>
-    intro _
+    intro _ _
     rw [seg_empty exts f (by omega)]
     simp [serOps, lastFrame, W.pure_eq]
 
+/-- An extension of the frame with an inadmissible length makes the emission loop return `OPUS_BAD_ARG`. -/
+theorem wFrameLoop_plain_bad (hv : AllIF exts nbF) (f : Nat) (det : Det) (i hi : Nat) (s : GSt) (hle : hi ≤ exts.size) :
+    (∃ x ∈ seg exts i hi f, ¬ LenOk x) →
+    (∀ i', i ≤ i' → i' < hi → ¬ (0 < det.repeatCount ∧ s.repIdx[f]? = some i')) →
+    (wFrameLoop exts nbF f det i hi s).res = .err .badArg := by
+  fun_induction wFrameLoop exts nbF f det i hi s with
+  | case1 i s hlt ih3 ih2 ih1 =>
+    intro hbad hno
+    have hin : i < exts.size := by omega
+    have hget : exts[i]? = some exts[i] := Array.getElem?_eq_getElem hin
+    have hrd : rdE exts i = .ok exts[i] := by simp only [rdE]; rw [hget]
+    have hif := hv i _ hget
+    have hsegstep := seg_step exts i hi f _ hlt hget
+    rw [hrd, W.lift_ok_bind]
+    rw [hsegstep] at hbad
+    by_cases hfe : exts[i].frame = (f : Int)
+    · have hfn : exts[i].frame.toNat = f := by have := hif.fr_lo; omega
+      simp only [hfe, if_true]
+      simp only [hfn, if_true, List.singleton_append] at hbad
+      rw [W.bind_of_ok _ (wSep_ok f s.currFrame)]
+      by_cases hok : LenOk exts[i]
+      · rw [W.bind_of_ok _ (wExt_res_ok hif hok _)]
+        have hnr := hno i (Nat.le_refl _) hlt
+        simp only [hnr, if_false]
+        obtain ⟨x, hx, hxb⟩ := hbad
+        have hx' : x ∈ seg exts (i + 1) hi f := by
+          rcases List.mem_cons.mp hx with rfl | h
+          · exact absurd hok hxb
+          · exact h
+        exact ih2 exts[i] ⟨x, hx', hxb⟩ (fun i' h1 h2 => hno i' (by omega) h2)
+      · exact W.bind_of_err _ (wExt_bad hif hok _)
+    · have hfn : ¬ exts[i].frame.toNat = f := by have := hif.fr_lo; omega
+      simp only [hfe, if_false]
+      simp only [hfn, if_false, List.nil_append] at hbad
+      exact ih1 hbad (fun i' h1 h2 => hno i' (by omega) h2)
+  | case2 i s hge =>
+    intro ⟨x, hx, _⟩ _
+    rw [seg_empty exts f (by omega)] at hx; cases hx
+
 /-- The emission loop of frame `f` when `det.repeatCount > 0`: plain extensions up to index `iR`
     (= `frame_repeat_idx[f]`), the indicator, the repeated payloads, the rest of the frame. -/
-theorem wFrameLoop_rep (hv : AllValid exts nbF) (hnf : nbF ≤ 48) (mx : List Nat) (f : Nat) (hf : f + 1 < nbF)
+theorem wFrameLoop_rep (hv : AllIF exts nbF) (hD : ExtsOk exts) (hnf : nbF ≤ 48) (mx : List Nat) (f : Nat) (hf : f + 1 < nbF)
     (det : Det) (hR : 0 < det.repeatCount) (iR hi : Nat) (hiR : iR < hi) (hle : hi ≤ exts.size)
     (eR : Ext) (heR : exts[iR]? = some eR) (hfR : eR.frame.toNat = f)
     (W1 : Nat) (llp : Option Nat) (rep0 : List Nat) (hr0 : rep0.length = nbF) (hrepf : rep0.getD f 0 = iR)
@@ -71,6 +113,8 @@ theorem wFrameLoop_rep (hv : AllValid exts nbF) (hnf : nbF ≤ 48) (mx : List Na
     (hpost : lastV = true → seg exts (iR + 1) hi f = [])
     (i : Nat) (s : GSt) :
     i ≤ iR → s.repIdx = rep0 → s.minIdx.length = nbF → s.written + (seg exts i (iR + 1) f).length = W1 → s.currFrame ≤ f →
+    (∀ x ∈ seg exts i hi f, LenOk x) →
+    (∀ g', f + 1 ≤ g' → g' < nbF → ∀ x ∈ seg exts (s.minIdx.getD g' 0) (rep0.getD g' 0) g', LenOk x) →
     (∀ g', f + 1 ≤ g' → g' < nbF → s.minIdx.getD g' 0 ≤ rep0.getD g' 0 ∧ rep0.getD g' 0 ≤ exts.size ∧
       seg exts (s.minIdx.getD g' 0) (rep0.getD g' 0) g' = (remQ exts mx s.minIdx g').take det.repeatCount) →
     (∀ g' j' e, f + 1 ≤ g' → g' + 1 < nbF → exts[j']? = some e → e.frame.toNat = g' → ¬ (lastV = true ∧ det.lastLong = some j')) →
@@ -89,11 +133,12 @@ theorem wFrameLoop_rep (hv : AllValid exts nbF) (hnf : nbF ≤ 48) (mx : List Na
             (seg exts (iR + 1) hi f) := by
   fun_induction wFrameLoop exts nbF f det i hi s with
   | case1 i s hlt ih3 ih2 ih1 =>
-    intro hi_le hrep hml hW hcur hseg hfl1 hfl2
+    intro hi_le hrep hml hW hcur hL1 hL2 hseg hfl1 hfl2
     have hin : i < exts.size := by omega
     have hget : exts[i]? = some exts[i] := Array.getElem?_eq_getElem hin
     have hrd : rdE exts i = .ok exts[i] := by simp only [rdE]; rw [hget]
-    have hve := hv i _ hget
+    have hif := hv i _ hget
+    have hsegstepF := seg_step exts i hi f _ hlt hget
     have hrepf' : s.repIdx[f]? = some iR := by
       rw [hrep]
       have : f < rep0.length := by omega
@@ -102,7 +147,9 @@ theorem wFrameLoop_rep (hv : AllValid exts nbF) (hnf : nbF ≤ 48) (mx : List Na
       rw [hrepf]
     rw [hrd, W.lift_ok_bind]
     by_cases hfe : exts[i].frame = (f : Int)
-    · have hfn : exts[i].frame.toNat = f := by omega
+    · have hfn : exts[i].frame.toNat = f := by have := hif.fr_lo; omega
+      have hve : ValidExt nbF exts[i] := validExt_of hif (hL1 _ (by rw [hsegstepF]; simp [hfn])) (hD i _ hget)
+      have hL1t : ∀ x ∈ seg exts (i + 1) hi f, LenOk x := fun x hx => hL1 x (by rw [hsegstepF]; exact List.mem_append_right _ hx)
       simp only [hfe, if_true]
       obtain ⟨pe1, pe2⟩ : (wExt exts[i] (decide ((s.written : Int) = (exts.size : Int) - 1))).res = .ok () ∧
           content false (wExt exts[i] (decide ((s.written : Int) = (exts.size : Int) - 1))).ops =
@@ -122,12 +169,12 @@ theorem wFrameLoop_rep (hv : AllValid exts nbF) (hnf : nbF ≤ 48) (mx : List Na
           rw [hlastV, ← hW]
         rw [hlv]
         rw [W.bind_of_ok (x := W.emit [Op.need 1, Op.put (if lastV = true then 4 else 5)]) _ rfl]
-        obtain ⟨s3, q1, q2, q3, q4, q5, q6, q7, q8⟩ := wRepeatsLoop_spec hv mx det.repeatCount lastV det.lastLong llp rep0 hr0 (f + 1)
-          { s with written := s.written + 1, currFrame := f } hrep hml hseg hfl1 hfl2
+        obtain ⟨s3, q1, q2, q3, q4, q5, q6, q7, q8⟩ := wRepeatsLoop_spec hv hD mx det.repeatCount lastV det.lastLong llp rep0 hr0 (f + 1)
+          { s with written := s.written + 1, currFrame := f } hrep hml hL2 hseg hfl1 hfl2
         rw [W.bind_of_ok _ q1]
         simp only at q3 q5 q6 q7
         have hplain := wFrameLoop_plain hv f det (i + 1) hi
-          { s3 with currFrame := if lastV = true then s3.currFrame + 1 else s3.currFrame } hle
+          { s3 with currFrame := if lastV = true then s3.currFrame + 1 else s3.currFrame } hle hL1t
           (by
             intro i' h1 h2 hcon
             simp only at hcon
@@ -139,9 +186,11 @@ theorem wFrameLoop_rep (hv : AllValid exts nbF) (hnf : nbF ≤ 48) (mx : List Na
           intro e he
           unfold seg at he
           rw [List.mem_filter] at he
+          have helen := hL1t e (by unfold seg; rw [List.mem_filter]; exact he)
           obtain ⟨j, hj⟩ := List.mem_iff_getElem?.mp (List.mem_of_mem_take he.1)
           rw [List.getElem?_drop] at hj
-          exact ⟨hv _ e (by simpa using hj), by simpa using he.2⟩
+          have hj' : exts[i + 1 + j]? = some e := by simpa using hj
+          exact ⟨validExt_of (hv _ e hj') helen (hD _ e hj'), by simpa using he.2⟩
         have hsorted : FrameSorted (if lastV = true then s3.currFrame + 1 else s3.currFrame) (seg exts (i + 1) hi f) := by
           by_cases hl : lastV = true
           · rw [hpost hl]; trivial
@@ -163,19 +212,102 @@ theorem wFrameLoop_rep (hv : AllValid exts nbF) (hnf : nbF ≤ 48) (mx : List Na
           rw [seg_step exts i (iR + 1) f _ (by omega) hget]; simp [hfn]
         rw [hsegc] at hW
         simp only [List.length_cons] at hW
-        obtain ⟨sF, r1, r2, r3, r4, r5, r6, r7, r8⟩ := ih2 exts[i] (by omega) hrep hml (by simp only; omega) (by simp only; omega) hseg hfl1 hfl2
+        obtain ⟨sF, r1, r2, r3, r4, r5, r6, r7, r8⟩ := ih2 exts[i] (by omega) hrep hml (by simp only; omega) (by simp only; omega) hL1t hL2 hseg hfl1 hfl2
         simp only at r4 r6 r8
         refine ⟨sF, r1, r2, r3, r4, r5, r6, r7, ?_⟩
         rw [content_append, content_append, hsepc, pe2, r8, hsegc]
         simp [serW, hfn, List.append_assoc]
-    · have hfn : ¬ exts[i].frame.toNat = f := by have := hve.fr_lo; omega
+    · have hfn : ¬ exts[i].frame.toNat = f := by have := hif.fr_lo; omega
       simp only [hfe, if_false]
       have hii : i ≠ iR := by
         intro h; subst h; rw [hget] at heR; cases heR; exact hfn hfR
       have hsegc : seg exts i (iR + 1) f = seg exts (i + 1) (iR + 1) f := by
         rw [seg_step exts i (iR + 1) f _ (by omega) hget]; simp [hfn]
       rw [hsegc] at hW ⊢
-      exact ih1 (by omega) hrep hml hW hcur hseg hfl1 hfl2
+      exact ih1 (by omega) hrep hml hW hcur (fun x hx => hL1 x (by rw [hsegstepF]; simp [hfn]; exact hx)) hL2 hseg hfl1 hfl2
+  | case2 i s hge =>
+    intro hi_le; omega
+
+/-- With a repeat block: an inadmissible length among the extensions of the frame or among the repeated
+    extensions of the later frames makes the emission loop return `OPUS_BAD_ARG`. -/
+theorem wFrameLoop_rep_bad (hv : AllIF exts nbF) (f : Nat) (det : Det) (hR : 0 < det.repeatCount) (iR hi : Nat) (hiR : iR < hi)
+    (hle : hi ≤ exts.size) (eR : Ext) (heR : exts[iR]? = some eR) (hfR : eR.frame.toNat = f)
+    (rep0 : List Nat) (hr0 : rep0.length = nbF) (hfn : f < nbF) (hrepf : rep0.getD f 0 = iR) (i : Nat) (s : GSt) :
+    i ≤ iR → s.repIdx = rep0 → s.minIdx.length = nbF →
+    (∀ g', f + 1 ≤ g' → g' < nbF → rep0.getD g' 0 ≤ exts.size) →
+    ((∃ x ∈ seg exts i hi f, ¬ LenOk x) ∨
+      (∃ g', f + 1 ≤ g' ∧ g' < nbF ∧ ∃ x ∈ seg exts (s.minIdx.getD g' 0) (rep0.getD g' 0) g', ¬ LenOk x)) →
+    (wFrameLoop exts nbF f det i hi s).res = .err .badArg := by
+  fun_induction wFrameLoop exts nbF f det i hi s with
+  | case1 i s hlt ih3 ih2 ih1 =>
+    intro hi_le hrep hml hb hbad
+    have hin : i < exts.size := by omega
+    have hget : exts[i]? = some exts[i] := Array.getElem?_eq_getElem hin
+    have hrd : rdE exts i = .ok exts[i] := by simp only [rdE]; rw [hget]
+    have hif := hv i _ hget
+    have hsegstep := seg_step exts i hi f _ hlt hget
+    have hrepf' : s.repIdx[f]? = some iR := by
+      rw [hrep]
+      have : f < rep0.length := by omega
+      rw [List.getElem?_eq_getElem this]
+      simp only [List.getD, List.getElem?_eq_getElem this, Option.getD_some] at hrepf
+      rw [hrepf]
+    rw [hrd, W.lift_ok_bind]
+    by_cases hfe : exts[i].frame = (f : Int)
+    · have hfnn : exts[i].frame.toNat = f := by have := hif.fr_lo; omega
+      simp only [hfe, if_true]
+      rw [W.bind_of_ok _ (wSep_ok f s.currFrame)]
+      by_cases hok : LenOk exts[i]
+      · rw [W.bind_of_ok _ (wExt_res_ok hif hok _)]
+        -- the bad extension is further on
+        have hbad' : (∃ x ∈ seg exts (i + 1) hi f, ¬ LenOk x) ∨
+            (∃ g', f + 1 ≤ g' ∧ g' < nbF ∧ ∃ x ∈ seg exts (s.minIdx.getD g' 0) (rep0.getD g' 0) g', ¬ LenOk x) := by
+          rcases hbad with ⟨x, hx, hxb⟩ | h
+          · left
+            rw [hsegstep] at hx
+            simp only [hfnn, if_true, List.singleton_append] at hx
+            rcases List.mem_cons.mp hx with rfl | h
+            · exact absurd hok hxb
+            · exact ⟨x, h, hxb⟩
+          · exact Or.inr h
+        by_cases hii : i = iR
+        · subst hii
+          have hc : (0 < det.repeatCount ∧ s.repIdx[f]? = some i) := ⟨hR, hrepf'⟩
+          simp only [hc, and_self, if_true]
+          generalize decide (s.written + 1 + det.repeatCount * (nbF - (f + 1)) = exts.size ∨ det.lastLong = none ∧ hi ≤ i + 1) = lastV
+          rw [W.bind_of_ok (x := W.emit [Op.need 1, Op.put (if lastV = true then 4 else 5)]) _ rfl]
+          rcases hbad' with hpost | hrepb
+          · -- the repeats are fine (or not): either way look at them first
+            by_cases hrb : ∃ g', f + 1 ≤ g' ∧ g' < nbF ∧ ∃ x ∈ seg exts (s.minIdx.getD g' 0) (rep0.getD g' 0) g', ¬ LenOk x
+            · exact W.bind_of_err _ (wRepeatsLoop_bad hv lastV det.lastLong rep0 hr0 (f + 1)
+                { s with written := s.written + 1, currFrame := f } hrep hml hb hrb)
+            · have hLr : ∀ g', f + 1 ≤ g' → g' < nbF → ∀ x ∈ seg exts (s.minIdx.getD g' 0) (rep0.getD g' 0) g', LenOk x := by
+                intro g' h1 h2 x hx
+                apply Decidable.byContradiction; intro hc'
+                exact hrb ⟨g', h1, h2, x, hx, hc'⟩
+              obtain ⟨s3, q1, q2⟩ := wRepeatsLoop_res_ok hv lastV det.lastLong rep0 hr0 (f + 1)
+                { s with written := s.written + 1, currFrame := f } hrep hml hb hLr
+              rw [W.bind_of_ok _ q1]
+              exact wFrameLoop_plain_bad hv f det (i + 1) hi _ hle hpost (by
+                intro i' h1 h2 hcon
+                simp only at hcon
+                rw [q2, ← hrep, hrepf'] at hcon
+                have := hcon.2; simp at this; omega)
+          · exact W.bind_of_err _ (wRepeatsLoop_bad hv lastV det.lastLong rep0 hr0 (f + 1)
+              { s with written := s.written + 1, currFrame := f } hrep hml hb hrepb)
+        · have hnr : ¬ (0 < det.repeatCount ∧ s.repIdx[f]? = some i) := by
+            rw [hrepf']; intro h; have := h.2; simp at this; omega
+          simp only [hnr, if_false]
+          exact ih2 exts[i] (by omega) hrep hml hb hbad'
+      · exact W.bind_of_err _ (wExt_bad hif hok _)
+    · have hfnn : ¬ exts[i].frame.toNat = f := by have := hif.fr_lo; omega
+      simp only [hfe, if_false]
+      have hii : i ≠ iR := by
+        intro h; subst h; rw [hget] at heR; cases heR; exact hfnn hfR
+      refine ih1 (by omega) hrep hml hb ?_
+      rcases hbad with ⟨x, hx, hxb⟩ | h
+      · left; rw [hsegstep] at hx; simp only [hfnn, if_false, List.nil_append] at hx; exact ⟨x, hx, hxb⟩
+      · exact Or.inr h
   | case2 i s hge =>
     intro hi_le; omega
 
